@@ -780,7 +780,7 @@ def index_maps(repo, res):
 
 @rule(
     "QRULE-GROUP",
-    ["C11", "C01", "C06"],
+    ["C11", "C01", "C06", "C19"],
     "_group_integrands_by_quadrature_rule, interpreted with the basix / quadrature helpers modelled symbolically: every "
     "integrand is filed under (integration-entity type, rule) where the rule is exactly the one its own metadata selects - "
     "default schemes through create_quadrature_points_and_weights(integral type, cell, degree, scheme, argument elements, "
@@ -831,7 +831,7 @@ def qrule_group(repo, res):
         it.overrides["basix.cell.volume"] = _PyCall(lambda ct: vol[ct])
         it.overrides["basix.CellType.point"] = "CellType.point"
         it.overrides["np.full"] = _PyCall(lambda n_, v, dtype=None: [v] * n_)
-        it.overrides["np.asarray"] = _PyCall(lambda x: x)
+        it.overrides["np.asarray"] = _PyCall(lambda x, **k: x)
         it.overrides["create_quadrature_points_and_weights"] = _PyCall(cqpw)
         it.overrides["QuadratureRule"] = _PyCall(lambda p_, w_, tf=None: ("rule", str(p_), str(w_), str(tf)))
         it.overrides["warnings.warn"] = _PyCall(lambda *a, **k: None)
@@ -841,14 +841,16 @@ def qrule_group(repo, res):
         return Node("Integral", metadata=_PyCall(lambda _m=md: dict(_m)), integrand=_PyCall(lambda _k=k: f"integrand{_k}"))
 
     D = lambda deg, scheme="default": {"quadrature_degree": deg, "quadrature_rule": scheme}  # noqa: E731
-    CU = {"quadrature_rule": "custom", "quadrature_points": "CP", "quadrature_weights": "CW"}
+    from ..npmodel import NDArr as _NDA
+    CPa, CWa = _NDA([[0.25], [0.75]], (2, 1)), _NDA([0.5, 0.5], (2,))
+    CU = {"quadrature_rule": "custom", "quadrature_points": CPa, "quadrature_weights": CWa}
     cases = [
         ("cell, triangle: degrees 2, 2, 4", "cell", "triangle", [D(2), D(2), D(4)], False,
          {"CellType.triangle": {("P[triangle,2,default,ELS,False]", "W[triangle,2,default,ELS,False]"): [0, 1], ("P[triangle,4,default,ELS,False]", "W[triangle,4,default,ELS,False]"): [2]}}),
         ("cell, quadrilateral with sum factorisation: GLL degree 3 and default degree 3", "cell", "quadrilateral", [D(3, "GLL"), D(3)], True,
          {"CellType.quadrilateral": {("P[quadrilateral,3,GLL,ELS,True]", "W[quadrilateral,3,GLL,ELS,True]"): [0], ("P[quadrilateral,3,default,ELS,True]", "W[quadrilateral,3,default,ELS,True]"): [1]}}),
         ("exterior facet, quadrilateral: custom rule and default degree 3", "exterior_facet", "quadrilateral", [CU, D(3)], True,
-         {"CellType.interval": {("CP", "CW"): [0], ("P[interval,3,default,ELS,False]", "W[interval,3,default,ELS,False]"): [1]}}),
+         {"CellType.interval": {(str(CPa), str(CWa)): [0], ("P[interval,3,default,ELS,False]", "W[interval,3,default,ELS,False]"): [1]}}),
         ("interior facet, prism: default degree 2", "interior_facet", "prism", [D(2)], False,
          {"CellType.triangle": {("P[triangle,2,default,ELS,False]", "W[triangle,2,default,ELS,False]"): [0]},
           "CellType.quadrilateral": {("P[quadrilateral,2,default,ELS,False]", "W[quadrilateral,2,default,ELS,False]"): [0]}}),
@@ -856,7 +858,7 @@ def qrule_group(repo, res):
          {"CellType.triangle": {("[[0] [1] [2]]", str([0.5 / 3] * 3)): [0]}}),
         ("cell, triangle: vertex scheme next to degree 2", "cell", "triangle", [D(1, "vertex"), D(2)], False,
          {"CellType.triangle": {("[[0] [1] [2]]", str([0.5 / 3] * 3)): [0], ("P[triangle,2,default,ELS,False]", "W[triangle,2,default,ELS,False]"): [1]}}),
-        ("ridge, tetrahedron: custom rule", "ridge", "tetrahedron", [CU], False, {"CellType.interval": {("CP", "CW"): [0]}}),
+        ("ridge, tetrahedron: custom rule", "ridge", "tetrahedron", [CU], False, {"CellType.interval": {(str(CPa), str(CWa)): [0]}}),
         ("vertex integral: default", "vertex", "triangle", [D(1)], False, {"CellType.point": {("P[vertex,1,default,ELS,False]", "W[vertex,1,default,ELS,False]"): [0]}}),
     ]
     for label, itype, cn, mds, sf, want in cases:
@@ -876,3 +878,20 @@ def qrule_group(repo, res):
         if norm != want_n:
             res.fail(key, f"`{label}`: integrands are filed as {norm}, expected {want_n}: each integrand must be integrated with the rule its own metadata "
                      "selects, under the type of its integration entity", m.line(f.node))
+    # a custom rule whose points and weights do not fit together is rejected: n points of the entity's dimension, n weights
+    bad = {
+        "three points, two weights": (_NDA([[0.1], [0.5], [0.9]], (3, 1)), _NDA([0.5, 0.5], (2,))),
+        "weights given as a column (n, 1)": (_NDA([[0.25], [0.75]], (2, 1)), _NDA([[0.5], [0.5]], (2, 1))),
+        "points given as a flat list": (_NDA([0.25, 0.75], (2,)), _NDA([0.5, 0.5], (2,))),
+    }
+    for label, (pp, ww) in bad.items():
+        key = f"{f.key}:custom-rule-rejected:{label}"
+        res.ob(key)
+        md = {"quadrature_rule": "custom", "quadrature_points": pp, "quadrature_weights": ww}
+        try:
+            got = mk().call_f(f, [[integral(0, md)], "ELS", "exterior_facet", Node("Cell", cellname="triangle"), False])
+            res.fail(key, f"a custom quadrature rule with {label} (points {pp.shape}, weights {ww.shape}) is accepted: the kernel loops over len(weights) points and "
+                     "indexes the tables with the point index - points without a weight are silently skipped, a weights column becomes `weights[n][1]` used as a scalar "
+                     "(not valid C)", m.line(f.node), props=("C19", "C11"))
+        except Raised:
+            pass
